@@ -4,6 +4,8 @@
 // the statement a pool of adversarial values is enumerated (all lists / maps over a small hostile
 // alphabet) and all unordered pairs are compared through a hash->value multimap, in an empty and in
 // a populated target; seeded random near-duplicate definitions and "adjacent attribute" moves follow.
+// srcs / named srcs / tools / named tools have a second pool over every kind of build input (plain
+// labels, labels annotated with a named output or entry point, package files, system files, PATH tools).
 // Two semantically different definitions with equal rule hashes refute the property.
 package c08
 
